@@ -26,6 +26,59 @@ PROPS = {
             "valid designs that Hdl21 refuses to export are counted (probe valid_design_rejected_*) but are not C01 violations",
         ],
     },
+    "C02": {
+        "workloads": [("conn", "c02", 8000, 120000, None)],
+        "rule": (
+            "one case = a valid generated design with one ill-formedness planted by a single edit: class drawn from {direct / member / port-reference / array width mismatch, "
+            "missing or surplus connection, reference to a non-existent port or bundle member, out-of-range index, empty slice, signal owned by another module or by none, "
+            "no-connect on a referenced port, circular instantiation, unnamed module, module-name clash} at a site drawn over the hierarchy (top or deep; scalar, slice, concat, "
+            "port reference, bundle, anonymous bundle, array, pair connections), in half the runs after valid sub-modules were elaborated earlier; the reference model re-judges "
+            "the mutant and only mutants it calls ill-formed count; oracle: to_proto and netlist raise; distinct = distinct (program shape, class, site kind)"
+        ),
+        "assumptions": [
+            "ill-formedness classes are those enumerated in the property statement; one no-connect object on two ports and slice bounds beyond [-w, w] are contested and not planted",
+            "a design rejected while it is being built (before elaboration) counts as rejected",
+        ],
+    },
+    "C04": {
+        "workloads": [("conn", "c04", 8000, 120000, None)],
+        "rule": (
+            "one case = a generated design in which every instance port receives 0-3 temporary connections of every connectable kind before its "
+            "final one, through connect-by-call / setattr / connect(), replace() and disconnect()+connect, interleaved across ports at random, under a "
+            "drawn set-iteration policy; after every operation the live Instance.conns must have the model's keys; the exported partition must equal the model of "
+            "the final map; non-trivial = exported and >= 1 leaf; distinct = distinct (program shape, policy, schedule trace)"
+        ),
+        "assumptions": [
+            "the model of an operation history is the dict of the current port -> expression map (sim/refmodel.py Design.apply)",
+            "histories end in a complete valid mapping, as the property's quantifier requires",
+        ],
+    },
+    "C05": {
+        "workloads": [("conn", "c05", 8000, 120000, None)],
+        "rule": (
+            "one case = a generated valid design in which 1-4 designer signals / ports / instances / bundle instances were consistently renamed to names the "
+            "elaborator would invent for other objects of the same module (inst_port, bundle_member_path, array_k, pair_p/n, 0-2 trailing underscores) or a no-connect was "
+            "named after an existing signal; oracle = partition equality with name-agnostic matching of invented names; an exception is accepted; "
+            "distinct = distinct (program shape, policy, schedule trace)"
+        ),
+        "assumptions": [
+            "a clash may be resolved by a fresh name or by raising; raising is counted, not flagged",
+            "invented names are matched by stem + trailing underscores or, failing that, by structure - never assumed",
+        ],
+    },
+    "C06": {
+        "workloads": [("conn", "c01", 3000, 40000, None), ("conn", "c05", 3000, 40000, None), ("hist", "c08", 800, 10000, None), ("examples", "c06", 1200, 15000, None)],
+        "rule": (
+            "the closedness monitor (sim/netview.py closed_violations: unique names, definition before use, every port names a declared signal, every instance "
+            "target resolves and has each port connected exactly once, every connection target declared / in range / of the port's width, from_proto and the spice and "
+            "spectre netlisters accept) evaluated on every package produced by: valid generated designs, adversarially named designs, sessions with injected "
+            "failures (packages returned after a failure), and sessions over /repo/examples and the built-in generators; distinct = distinct scenario signatures"
+        ),
+        "assumptions": [
+            "netlister acceptance is not demanded of packages that contain generic physical primitives (vlsirtools refuses those by design)",
+            "PDK-compiled designs are monitored by the C15 check, not here",
+        ],
+    },
     "C07": {
         "workloads": [("hist", "c07", 2500, 40000, None)],
         "rule": (
